@@ -89,9 +89,9 @@ def post_rename(st, args, kwargs, result):
     if old in r.inputs or old in r.outputs:
         V('stale_interface', 'old label still in inputs/outputs')
         return
-    for l, u in c._gate_to_users.items():
-        if l == old or old in u:
-            V('stale_users', 'users index still mentions %r' % old)
+    for l in c.gates:
+        if old in c.get_gate_users(l):
+            V('stale_users', 'users of %r still mention %r' % (l, old))
             return
     for n, b in c.blocks.items():
         if old in b.inputs or old in b.gates or old in b.outputs:
